@@ -720,6 +720,24 @@ func (b *body) Close() error {
 	return err
 }
 
+// DrainAndClose reads and discards up to limit bytes of what is left of the
+// body and closes the body, in one step with respect to every other reader of
+// the body (e.g. a Transport that is still copying the body of a request whose
+// response has already arrived): such a reader gets ErrBodyReadAfterClose on
+// its next Read. It never sees a gap in the data or a clean io.EOF after bytes
+// it has not read itself. n is the number of bytes discarded, err is the
+// error that ended the reading (io.EOF: the body was consumed to its end).
+func (b *body) DrainAndClose(limit int64) (n int64, err error) {
+	b.mu.Lock()
+	defer b.mu.Unlock()
+	if b.closed {
+		return 0, ErrBodyReadAfterClose
+	}
+	n, err = io.CopyN(ioutil.Discard, bodyLocked{b}, limit)
+	b.closed = true
+	return n, err
+}
+
 // bodyLocked is a io.Reader reading from a *body when its mutex is
 // already held.
 type bodyLocked struct {
